@@ -469,6 +469,11 @@ func c06Evaluate(c c06Case) c06Verdict {
 		v.What = fmt.Sprintf("Check() passes but Example() returned %d bytes", len(l.Example))
 	case !stdjson.Valid(l.Example):
 		v.Clause, v.Shape = "example-not-json", c06JSONDefect(l.Example)
+		if v.Shape == "empty text" && !v.Ref.Finite {
+			// accepted although no finite instance exists (a cycle of type names that does not pass the root):
+			// there is nothing Example() could return - a family of its own (recorded finding)
+			v.Shape = c06NoInstanceShape
+		}
 		v.What = fmt.Sprintf("Check() passes but Example() is not RFC 8259 JSON (%s): %s", v.Shape, mon.Trunc(string(l.Example), 240))
 	}
 	return v
@@ -701,6 +706,9 @@ func newC06State() *c06State {
 	return &c06State{shrunk: map[string]int{}, told: map[string]bool{}, best: map[string]*c06Witness{}}
 }
 
+// c06NoInstanceShape names the shape "Example() returns no text for an accepted root that has no finite instance".
+const c06NoInstanceShape = "empty text, the root has no finite instance"
+
 func c06WitnessPrefix(shape string) string { return "witness (" + shape + "): " }
 
 // c06Finalize keeps, per clause and shape, the three smallest of the exact
@@ -817,6 +825,9 @@ func c06Judge(r *mon.Run, st *c06State, c c06Case, family string, shrink bool) c
 			break
 		}
 		st.told[id] = true
+		if v.Shape == c06NoInstanceShape {
+			break // one entry for the family; the pinned witness is replayed on every run
+		}
 		w := st.best[id]
 		if w == nil {
 			w = &c06Witness{}
@@ -1467,6 +1478,11 @@ func c06Run(r *mon.Run) {
 	}
 	if r.Shard == 1 {
 		c06DenseOptional(r)
+	}
+	if r.Shard == 2%mon.LogicalShards {
+		// pinned witness of a recorded finding: a root that is a type name leading into a cycle of type names
+		w := c06Case{Wiring: c06WireShallowSame, Project: &gen.Project{Root: gen.Ref("@t1"), Types: []gen.NamedNode{{Name: "@t1", Node: gen.Ref("@t2")}, {Name: "@t2", Node: gen.Ref("@t2")}}}}
+		c06Judge(r, st, w, "pinned: cycle of type names behind the root", false)
 	}
 	// (1) enumerated families; the global index runs over all of them
 	var base uint64
